@@ -20,6 +20,12 @@ struct Slice {
   ElementType& operator[](ptrdiff_t idx) const { return storage_[idx]; }
   ElementType* begin() const { return storage_; }
   ElementType* end() const { return storage_ + size_; }
+  std::vector<uint8_t> reverse() const {
+    std::vector<uint8_t> r;
+    r.reserve(size_);
+    for (size_t i = 0; i < size_; i++) r.push_back((uint8_t)storage_[size_ - 1 - i]);
+    return r;
+  }
   ElementType* storage_;
   size_t size_;
 };
